@@ -22,8 +22,8 @@ EXTENDS MediaInheritImpl, Json, IOUtils
 
 Traces == ndJsonDeserialize(IOEnv.IN)
 
-VARIABLES tid, l, phase, ists       \* ists: deviation set -> state of the implementation model
-trVars == <<kase, memo, ret, tid, l, phase, ists>>
+VARIABLES tid, l, phase
+trVars == <<kase, memo, ret, tid, l, phase>>
 
 DSets == SUBSET Devs
 CaseOf(i) == IF i <= Len(Traces) THEN [cls |-> Traces[i].cls, rel |-> Traces[i].rel]
@@ -33,11 +33,9 @@ Ev == Events[l]
 
 TrInit == /\ tid = 1 /\ l = 1 /\ phase = "step"
           /\ kase = CaseOf(1) /\ memo = <<>> /\ ret = NoRet
-          /\ ists = [D \in DSets |-> ImplInit]
 
 NextTrace == /\ tid' = tid + 1 /\ l' = 1 /\ phase' = "step"
              /\ kase' = CaseOf(tid + 1) /\ memo' = <<>> /\ ret' = NoRet
-             /\ ists' = [D \in DSets |-> ImplInit]
 
 SpecAction(e) ==
   CASE e.op = "create" -> UNCHANGED <<kase, memo, ret>>
@@ -46,9 +44,6 @@ SpecAction(e) ==
 
 Step == /\ tid <= Len(Traces) /\ phase = "step" /\ l <= Len(Events)
         /\ SpecAction(Ev)
-        /\ ists' = IF Ev.op = "access"
-                   THEN [D \in DSets |-> ImplStep(kase, D, ists[D], Ev.c, Ev.a)]
-                   ELSE ists
         /\ phase' = "cmp" /\ UNCHANGED <<tid, l>>
 
 Obs(e, t) == CASE t = "js" -> e.js [] t = "all" -> e.all [] t = "print" -> e.print
@@ -73,12 +68,21 @@ Failing(e) ==
        (IF e.src # want.src \/ e.kind # want.kind THEN {"N." \o e.a} ELSE {}) \cup
        (IF e.file # (IF want.kind = "file" THEN want.src ELSE 0) THEN {"L." \o e.a} ELSE {})
 
+\* state of the implementation model with deviations D after the first n events of this trace
+\* (evaluated only when an observation needs an explanation)
+RECURSIVE ImplAt(_, _)
+ImplAt(D, n) ==
+  IF n = 0 THEN ImplInit
+  ELSE IF Events[n].op = "access" THEN ImplStep(kase, D, ImplAt(D, n - 1), Events[n].c, Events[n].a)
+  ELSE ImplAt(D, n - 1)
+
 \* the deviation sets whose implementation model predicts exactly this observation
 Explaining(e, failing) ==
   IF e.op # "access" \/ e.exc \/ e.a # "media" \/ e.other # 0 THEN {}
   ELSE {D \in DSets \ {{}} :
+          LET med == ImplMedia(kase, ImplAt(D, l), e.c) IN
           \A t \in Types :
-            LET pred == ImplMedia(ists[D], e.c)[t] IN
+            LET pred == med[t] IN
             IF "flatten" \in D THEN Obs(e, t) = pred
             ELSE /\ Range(Obs(e, t)) = Range(pred) /\ OnceOK(Obs(e, t))
                  /\ ("R." \o t) \notin failing}
@@ -90,11 +94,11 @@ Join(S) == IF S = {} THEN "" ELSE LET x == CHOOSE x \in S : TRUE IN x \o " " \o 
 Cmp == /\ tid <= Len(Traces) /\ phase = "cmp"
        /\ LET failing == Failing(Ev) IN
           IF failing = {}
-          THEN /\ l' = l + 1 /\ phase' = "step" /\ UNCHANGED <<kase, memo, ret, tid, ists>>
+          THEN /\ l' = l + 1 /\ phase' = "step" /\ UNCHANGED <<kase, memo, ret, tid>>
           ELSE LET ex == Explaining(Ev, failing) IN
                IF ex # {}
                THEN /\ PrintT(<<"KNOWN", Traces[tid].id, l, Join(Smallest(ex)), Join(failing)>>)
-                    /\ l' = l + 1 /\ phase' = "step" /\ UNCHANGED <<kase, memo, ret, tid, ists>>
+                    /\ l' = l + 1 /\ phase' = "step" /\ UNCHANGED <<kase, memo, ret, tid>>
                ELSE /\ PrintT(<<"REJECT", Traces[tid].id, l, Join(failing)>>)
                     /\ NextTrace
 
